@@ -237,10 +237,23 @@ Next ==
   \/ \E p \in P : Cancel(p) /\ Step([a |-> "cancel", p |-> p])
   \/ Tick /\ Step([a |-> "tick"])
 
+Quiet ==   \* the same steps without the graph emission (for ENABLED)
+  \/ \E p \in P : Start(p)
+  \/ \E p \in P : PassAcqEnter(p)
+  \/ \E p \in P : PassAcqExit(p)
+  \/ \E p \in P : PassPushed(p)
+  \/ \E p \in P, o \in Outcomes : Release(p, o)
+  \/ \E p \in P : PassRelExit(p)
+  \/ \E p \in P : PassUAcqEnter(p)
+  \/ \E p \in P : PassUAcqExit(p)
+  \/ \E p \in P : PassURelExit(p)
+  \/ \E p \in P : Cancel(p)
+  \/ Tick
+
 EmitInit == Emit => /\ PrintT(<<"I", ToJson([st |-> St, obs |-> Obs])>>)
                     /\ PrintT(<<"C", ToJson([kind |-> "queue", limit |-> Limit, qmax |-> QMax, qtimeout |-> QTimeout,
                                              evictctx |-> EvictCtx, ordering |-> Ordering, procs |-> P,
-                                             cancellable |-> Cancellable, horizon |-> MaxTime, deadline |-> 0, expect |-> Ordering])>>)
+                                             cancellable |-> Cancellable, horizon |-> MaxTime, blackbox |-> FALSE, allserved |-> FALSE, deadline |-> 0, expect |-> Ordering])>>)
 InitE == Init /\ EmitInit
 
 (* -------------------------------------------------------------------- contract (A) *)
@@ -273,4 +286,9 @@ OrderOK ==
   lastGrant.to # NoProc =>
     LET a == lastGrant.among IN
     Len(a) > 0 /\ lastGrant.to = IF Ordering = "fifo" THEN a[1] ELSE a[Len(a)]
+
+(* C19 / C10 liveness shape on a finite acyclic graph: every maximal behaviour ends in a state *)
+(* without successors; if every such state has all callers granted and completed, then under  *)
+(* fairness every caller is eventually served (use with no cancellation and no time-outs).     *)
+TerminalAllServed == (~ENABLED Quiet) => \A p \in P : pc[p] = "done" /\ res[p] = "granted"
 =================================================================================
